@@ -127,6 +127,10 @@ DOCS = {
     'e_unknown_tag': '--- !unknown x\n',
     'e_indent': '---\na:\n  - x\n - y\n',
     'e_dup_anchor_alias': '---\n- *a\n- &a 1\n',
+    # a user constructor that builds its node with deep=True (harness classes 'Deep<Loader>'; an unknown tag elsewhere)
+    'deep_ok': '--- !deep {a: [1, 2], b: {c: d}}\n',
+    'e_deep': '--- !deep {a: [1, !nosuch x], b: 2}\n',
+    'e_apply_deep': '--- !!python/object/apply:builtins.dict [[[a, !nosuch x]]]\n',
     # re-entrant constructor
     'reent': '---\n- before\n- !reent x\n- after: &a [1]\n- *a\n',
 }
@@ -229,8 +233,18 @@ def reent_constructor(loader, node):
 _classes = {}
 
 
+def deep_constructor(loader, node):
+    return ['deep', loader.construct_mapping(node, deep=True)]
+
+
 def loader_class(yaml, name):
     """Shipped class, or a harness subclass with the !reent constructor (made once per process)."""
+    if name.startswith('Deep'):
+        if name not in _classes:
+            cls = type(name, (getattr(yaml, name[4:]),), {})
+            cls.add_constructor('!deep', deep_constructor)
+            _classes[name] = cls
+        return _classes[name]
     if not name.startswith('Reent'):
         return getattr(yaml, name)
     if name not in _classes:
@@ -677,6 +691,18 @@ def generate(seed, tier):
             r.shuffle(docs)
         return {'mode': 'stream_load', 'docs': docs, 'api': r.choice(GEN_APIS), 'cls': r.choice(LOADERS),
                 'form': r.choice(['str', 'bytes', 'bstream', 'tstream']), 'chunk': r.choice([1, 3, 16, 100, None])}
+    if x < 0.19:
+        # one Loader object driven document by document (check_data / get_data), the caller carrying on after a
+        # document that failed in the constructor: the documents after it are interpreted as if it had not been there
+        group = ['e_deep', 'e_deep', 'deep_ok', 'rec_seq', 'rec_map', 'e_unknown_tag', 'anchor', 'e_apply_deep', 'e_unhashable', 'many_aliases', 'merge',
+                 'e_apply', 'pyobj', 'pytuple', 'types', 'tag_e', 'bang', 'map', 'e_scan_mapval', 'alias_undef_x', 'keys']
+        docs = [r.choice(group) for _ in range(r.randint(2, 6))]
+        if r.random() < 0.3:
+            docs = [r.choice([d for d in DOC_IDS if d != 'reent']) for _ in range(r.randint(2, 5))]
+        cls = r.choice(LOADERS)
+        if not cls.endswith('BaseLoader') and r.random() < 0.6:
+            cls = 'Deep' + cls
+        return {'mode': 'stream_object', 'docs': docs, 'cls': cls, 'form': r.choice(['str', 'bytes', 'bstream', 'tstream']), 'chunk': r.choice([1, 3, 16, 100, None])}
     if x < 0.25:
         via = r.choice(['emit', 'emit', 'serialize_all', 'serialize_all'])
         case = {'mode': 'stream_emit', 'via': via, 'cls': r.choice(DUMPERS),
@@ -961,7 +987,7 @@ def clip(x):
 
 
 def needs_c(op):
-    return op.get('cls', '').replace('Reent', '').startswith('C')
+    return op.get('cls', '').replace('Reent', '').replace('Deep', '').startswith('C')
 
 
 def case_ops(case):
@@ -991,6 +1017,8 @@ def execute(case):
         return execute_stream_load(yaml, case, out)
     if case['mode'] == 'stream_dump':
         return execute_stream_dump(yaml, case, out)
+    if case['mode'] == 'stream_object':
+        return execute_stream_object(yaml, case, out)
     if case['mode'] == 'stream_emit':
         return execute_stream_emit(yaml, case, out)
     status, res = kernel.forked(lambda: run_history(case), timeout=CASE_TIMEOUT - 30)
@@ -1161,6 +1189,68 @@ def execute_stream_load(yaml, case, out):
         out['violations'].append({'class': 'stream-error-differs-from-isolated-document', 'detail': {
             'case': case, 'isolated': clip(exp_err), 'in_stream': clip(res['exc'])}})
     out['log'] = observe.digest([got, res['exc']])
+    out['sample'] = case
+    return out
+
+
+def run_object_stream(yaml, case):
+    """Loader(stream); while check_data(): get_data() - carrying on after a ConstructorError."""
+    op = {'docs': case['docs'], 'terminate': True, 'form': case['form'], 'chunk': case.get('chunk')}
+    src = make_source(doc_text(op), op, [])
+    loader = loader_class(yaml, case['cls'])(src)
+    results = []
+    try:
+        while len(results) < 100:
+            try:
+                if not loader.check_data():
+                    break
+                results.append({'item': canon('load', loader.get_data())})
+            except yaml.constructor.ConstructorError as exc:
+                results.append({'exc': exc_summary(yaml, exc)})
+            except yaml.YAMLError as exc:
+                results.append({'exc': exc_summary(yaml, exc), 'fatal': True})
+                break
+    finally:
+        loader.dispose()
+    return results
+
+
+def execute_stream_object(yaml, case, out):
+    base = {'api': 'load', 'cls': case['cls'], 'terminate': True, 'form': 'str', 'chunk': None}
+    expected = []
+    dl = di = 0
+    prevdoc = None
+    for d in case['docs']:
+        want, _ = reference(dict(base, docs=[d]))
+        out['sigs'].append(observe.digest([d, prevdoc, 'object-api', case['cls']]))
+        prevdoc = d
+        if want['exc'] is not None:
+            fatal = want['exc'].get('class') != 'yaml.constructor.ConstructorError'
+            expected.append(dict({'exc': shift_error(want['exc'], dl, di)}, **({'fatal': True} if fatal else {})))
+            if fatal:
+                break
+        else:
+            expected.append({'item': want['items'][0]})
+        text = DOCS[d] + '...\n'
+        dl += text.count('\n')
+        di += len(text)
+    status, res = kernel.forked(lambda: run_object_stream(yaml, case), timeout=60)
+    if status != 'ok':
+        if status == 'error':
+            raise RuntimeError(res)
+        out['violations'].append({'class': status, 'detail': repr(res)})
+        out['log'] = status
+        return out
+    got = [dict(x, exc=shift_error(x['exc'], 0, 0)) if 'exc' in x else x for x in res]
+    out['evals'] += len(case['docs'])
+    out['probes']['object_api_documents'] = len(got)
+    out['probes']['object_api_documents_after_a_failed_one'] = sum(1 for i, x in enumerate(got) if any('exc' in y for y in got[:i]))
+    if got != expected:
+        i = first_diff(expected, got)
+        out['violations'].append({'class': 'document-differs-after-failed-document' if any('exc' in y for y in got[:i or 0]) else 'object-api-stream-differs-from-isolated-documents',
+                                  'detail': {'case': case, 'document': i, 'isolated': clip(expected[i] if i is not None and i < len(expected) else None),
+                                             'in_stream': clip(got[i] if i is not None and i < len(got) else None)}})
+    out['log'] = observe.digest(got)
     out['sample'] = case
     return out
 
@@ -1343,7 +1433,7 @@ def shrink(case):
         if case['evolve'] > 2:
             yield dict(case, evolve=case['evolve'] - 1)
         return
-    key = 'docs' if case['mode'] in ('stream_load', 'stream_emit') else 'vals'
+    key = 'docs' if case['mode'] in ('stream_load', 'stream_emit', 'stream_object') else 'vals'
     for cand in shr.list_candidates(case[key], 1):
         yield dict(case, **{key: cand})
     if case.get('chunk') is not None:
